@@ -1,6 +1,7 @@
 import OrdModel.Proofs.IndexSatsPartition
 import OrdModel.Proofs.IndexSatsArith
 import OrdModel.Proofs.IndexSatsRange
+import OrdModel.Proofs.IndexSatsBlock
 import OrdModel.Proofs.IndexSatsTx
 import OrdModel.Index.Run
 import OrdModel.Proofs.IndexSatsWitness
@@ -18,8 +19,9 @@ stored under `outpoint`.
 Status (see notes/C02.md): the lookup clauses are proved for *every* state satisfying the
 invariant; the invariant itself is proved for the empty index and checked on the implementation's
 own table after every block by `partitionOracle`, whose soundness with respect to the invariant
-is `c02_partition_oracle_sound`; its preservation by `applyBlock` is proved per transaction
-(`c02_tx_permutes_sats_partial`) and not yet lifted through the block plumbing.
+is `c02_partition_oracle_sound`; its preservation by the real `applyBlock` and hence its validity
+in every reachable state is proved for configurations with the inscription and rune indexes off
+(`c02_reachable_partitioned_partial`); with them on the frame lemmas for those updaters are missing.
 -/
 namespace Ord.Index
 open Outcome
@@ -168,6 +170,35 @@ theorem c02_partition_oracle_sound (height : Nat) (rows : List PRow)
 /-- The empty index is partitioned. -/
 theorem c02_initial : SatsPartitionedExact ({} : State) := satsPartitioned_empty
 
+/-- **The invariant holds in every reachable state** — after every prefix of every chain the
+indexer accepts (any transactions, same-block spends, underpaying coinbases, duplicate txids),
+with the sat index on.  `_partial` only in the configuration: inscription and rune indexes off
+(`--index-sats --no-index-inscriptions`, with or without `--index-addresses` /
+`--index-transactions`); with them on, what is missing is the frame lemma "`indexInscriptions` and
+`indexRunesBlock` never touch sat ranges" (notes/C02.md).  The proof goes through the real
+`applyBlock`: `takeInputEntries`, `indexTransactionSats`, the cache writes (`AL.set`, which may
+displace), the coinbase last, lost ranges merged into the null outpoint, `flushCache`. -/
+theorem c02_reachable_partitioned_partial (cfg : Cfg) (hs : cfg.indexSats = true)
+    (hi : cfg.indexInscriptions = false) (hr : cfg.indexRunes = false)
+    (chain : List Block) (hc : ChainHeights chain) (st : State) (evs : List Event)
+    (h : run cfg chain = .ok (st, evs)) : SatsPartitioned st ∧ st.height = chain.length :=
+  reachable_partition cfg hs hi hr chain hc st evs h
+
+/-- … hence in every such state `find` is exact. -/
+theorem c02_reachable_find_partial (cfg : Cfg) (hs : cfg.indexSats = true)
+    (hi : cfg.indexInscriptions = false) (hr : cfg.indexRunes = false)
+    (chain : List Block) (hc : ChainHeights chain) (st : State) (evs : List Event)
+    (h : run cfg chain = .ok (st, evs)) (sat : Nat) (p : SatPoint) :
+    find st sat = .ok (some p) ↔ SatAt st.utxo sat p :=
+  c02_find_iff st (reachable_partition cfg hs hi hr chain hc st evs h).1 sat p
+
+/-- One block step of the same (any state satisfying the invariant, not only reachable ones). -/
+theorem c02_block_preserves_partition_partial (cfg : Cfg) (hs : cfg.indexSats = true)
+    (hi : cfg.indexInscriptions = false) (hr : cfg.indexRunes = false) (st : State) (blk : Block)
+    (st' : State) (evs : List Event) (hh : blk.height = st.height) (inv : SatsPartitioned st)
+    (h : applyBlock cfg st blk = .ok (st', evs)) : SatsPartitioned st' ∧ st'.height = st.height + 1 :=
+  applyBlock_partition cfg hs hi hr st blk st' evs hh inv h
+
 /-- One transaction permutes sats: the ordinals of its outputs, in order, followed by the
 leftover are the ordinals of its inputs; so distinctness, minedness and non-emptiness of the
 ranges carry over from the spent entries to the created ones.  (`_partial`: this is the
@@ -219,6 +250,12 @@ theorem c02_rare_table_stale_fails :
   decide
 
 /-! ## Non-vacuity -/
+
+example : ChainHeights dupCoinbaseChain := by
+  intro i hi
+  have : i = 0 ∨ i = 1 ∨ i = 2 := by simp [dupCoinbaseChain] at hi; omega
+  rcases this with rfl | rfl | rfl <;> rfl
+example : satsOnlyCfg.indexSats = true ∧ satsOnlyCfg.indexInscriptions = false ∧ satsOnlyCfg.indexRunes = false := by decide
 
 example : SatsPartitioned ({} : State) := satsPartitioned_empty.toSatsPartitioned
 example : partitionOracle 1 [⟨⟨1, 0⟩, 5000000000, [(0, 5000000000)]⟩] [] = true := by
